@@ -26,6 +26,13 @@ pub fn exec(input: &[u64]) -> Vec<u64> {
             resp.message.header.message_id = ((src * 7) % 65536) as u16;
             let mut l = std::collections::LinkedList::new(); l.push_back(vec![(src % 256) as u8]);
             resp.message.set_option(coap_lite::CoapOption::ETag, l);
+            if src % 8 == 7 {
+                // ... and a notification: Observe and Max-Age set
+                let mut o = std::collections::LinkedList::new(); o.push_back(vec![(src % 256) as u8]);
+                resp.message.set_option(coap_lite::CoapOption::Observe, o);
+                let mut m = std::collections::LinkedList::new(); m.push_back(vec![60u8]);
+                resp.message.set_option(coap_lite::CoapOption::MaxAge, m);
+            }
         }
     }
     let flag = rq.apply_from_error(err);
@@ -88,6 +95,20 @@ pub fn gen(tier: &str, r: &mut Rng, emit: &mut dyn FnMut(Vec<u64>)) {
             let ec = if r.chance(1, 2) { 0 } else { r.below(29) };
             one(r, vt << 4, mid, tkl, ec, false);
         }
+    }
+    // requests for the well-known resources of RFC 6690 / 7252 / 9176 (every method, every type): a prepared reply is
+    // the same empty 2.05 whatever the target
+    for path in [&[".well-known", "core"][..], &[".well-known"][..], &[".well-known", "core", "x"][..], &[".well-known/core"][..], &["rd"][..], &[".well-known", "rd"][..], &[][..]] {
+        for code in [1u64, 2, 3, 4, 5, 0] { for ty in 0..4u8 { for q in [false, true] {
+            let mut d = PktDesc::default();
+            d.token = r.bytes(1); d.vtt = 0x40 | ty << 4 | 1; d.mid = r.next() as u16; d.class = code;
+            d.entries = vec![(11, path.iter().map(|s| s.as_bytes().to_vec()).collect())];
+            if q { d.entries.push((15, vec![b"rt=temp".to_vec()])); d.entries.push((17, vec![vec![40]])); }
+            let mut v = Vec::new();
+            d.write(&mut v);
+            v.push(r.below(1000)); v.push(r.below(29)); wr_bytes(&mut v, b"x");
+            emit(v);
+        } } }
     }
     // requests carrying options a server might interpret (No-Response with every interest mask, Observe, Block1/2, If-None-Match)
     for mask in [0u8, 2, 8, 16, 24, 26, 27, 30, 31, 0x1a, 0x7f, 255] { for ty in 0..4u8 { for two in [false, true] {
